@@ -7,6 +7,14 @@ TECH_A = "bounded symbolic execution of the real Python code (CrossHair 0.0.110 
 TECH_B = "; plus direct z3 obligations generated from the live source/AST (unbounded in the stated dimension)"
 
 CLAIMED = {
+    "C13": dict(
+        text="Bounded symbolic model checking of totality: compile() is executed on prefix + k symbolic characters + suffix for holes at every position of the seed corpus, at the lax-parsing contexts (k=2; 3 thorough), at numeric overflow edges, inside queries nested up to 32 deep and inside structured queries up to 1024 characters long; find() is executed for a pool of 25 filter/function queries on symbolic documents whose root and children range over every JSON kind. Postcondition on every path: the call returns or raises a JSONPathError whose str() is produced. No oracle is involved, so any escaping exception is a replayed, concrete finding.",
+        note="Trusted: CrossHair/z3, the stubs of C04. The foreign regex engines behind match/search run concretely on realized arguments. Outside: query strings not within k characters of a seed; recursion limits (C18).",
+        tech=TECH_A, design="§4 C13"),
+    "C19": dict(
+        text="Bounded symbolic model checking of error positions: Token.position()/JSONPathError.__str__ are executed for every text of <=4 (5 thorough) characters over all scalar values and every offset against the offset's real line/column; compile() is executed with symbolic characters at every position of valid seeds and with symbolic blank characters (SP/HT/LF/CR) at every position of 26 erroneous, partly multi-line seeds, asserting whenever it raises that the error has a token, 0 <= offset <= len(text), the token's text is the query and str(error) ends with that offset's ', line L, column C'.",
+        note="Trusted: CrossHair/z3, stubs of C04 (the repr placeholder affects only the message body, not the position suffix, which is computed by the real code). Convention assumed: lines are separated by LF, 1-based line, 0-based column (fixed by tests/test_errors.py).",
+        tech=TECH_A, design="§4 C19"),
     "C04": dict(
         text="Bounded differential symbolic model checking of the lexer+parser against an independent recogniser of the RFC 9535 ABNF: a hole of k symbolic characters (each any Unicode scalar value) is placed at every character position of a corpus of valid queries covering every production (k=1; k=2 at every position in the thorough tier) and at the contexts where lax parsing is typical (k=2; k=3 thorough); on every path where the recogniser says 'not derivable/invalid' the real compile() must raise JSONPathError. Each path stands for a whole class of strings, so this decides rejection for every single-edit (and many double-edit) neighbour of the corpus, which examples cannot.",
         note="Trusted: CrossHair str/regex models, z3, the reference recogniser vtools/ref/grammar.py (self-tested each run against every valid/invalid verdict recorded in the repository's tests), harness-side stubs listed in evidence (equality-scan ESCAPES/function registry, repr placeholder, symbolic int(), real-valued float, arithmetic hex kernels proved in C09). Outside: strings more than k adjacent characters away from every seed; the RFC-disputed blank space inside singular-query brackets of a comparand is don't-care.",
